@@ -599,8 +599,8 @@ def run(rep, tier, seed):
     if thorough:
         for fam in fams:  # every family on every edge of the two deep emissions
             replay_config(rep, "Inventory_blk_emit_thorough.cfg", env, [fam], "block-tree-2-edits:" + fam, seed=seed, dt=(fam == "circle"),
-                          weight_free_too=(fam in ("circle", "hot")))
-        replay_config(rep, "Inventory_core_emit_thorough.cfg", env, fams, "third-core-tree-2-edits", seed=seed, dt=False, max_edges=16000)
+                          weight_free_too=(fam == "hot"), max_edges=(None if fam == "circle" else 4000))
+        replay_config(rep, "Inventory_core_emit_thorough.cfg", env, fams, "third-core-tree-2-edits", seed=seed, dt=False, max_edges=8000)
     need = {"SetN", "SetN!", "UpdateN", "SetNs", "Scale", "Clear", "AddMass", "AddMass!", "RemoveMass", "SetMass", "SetMass!",
             "SetMassFracs", "SetMassFracs!"}
     seen = {x.rstrip("!") if x.startswith("Scale") else x for x in seen}
